@@ -56,6 +56,11 @@ const REQ_BUFS: &[&[u8]] = &[
     b"PUT /x HTTP/1.1\r\nReferer: http://x/yyy\r\n\r\n",
     // every error kind has to occur in a history: NewLine from a lone CR among the leading empty
     // lines and from a lone CR where the head must end
+    // long targets of one length: one cut off after the headers began, one with a control byte
+    // inside, one valid and different (a shortcut that trusts the previous call's target length)
+    b"GET /aaaaaaaaaaaaaaaaaaaaaaaaaaaaaaaaaaaaaaaaaaaaaaaaaaaaaaaaaaaaaaaaaaaaaaaaaaaaaaa HTTP/1.1\r\nHost: exa",
+    b"GET /bbbbbbbbbbbbbbbbbbbbbbbbbbbbbbbbbbbbbbbb\x01bbbbbbbbbbbbbbbbbbbbbbbbbbbbbbbbbbbbbb HTTP/1.1\r\n\r\n",
+    b"GET /ccccccccccccccccccccccccccccccccccccccccccccccccccccccccccccccccccccccccccccccc HTTP/1.1\r\n\r\n",
     b"\r\n\rGET /n HTTP/1.1\r\n\r\n",
     b"GET /o HTTP/1.1\r\nA: 1\r\n\rX",
 ];
@@ -84,6 +89,10 @@ const RESP_BUFS: &[&[u8]] = &[
     b"HTTP/1.1200 OK\r\nH1: v1\r\n\r\n",
     b"HTTP/1.1 200OK\r\n\r\n",
     b"HTTP/1.0 200 OK\nH1: v1\n\n",
+    // long reasons of one length (valid; with a byte >= 0x80; cut off)
+    b"HTTP/1.1 200 rrrrrrrrrrrrrrrrrrrrrrrrrrrrrrrrrrrrrrrrrrrrrrrrrrrrrrrrrrrrrrrrrrrrrrrr\r\nA: 1\r\n\r\n",
+    b"HTTP/1.1 500 ssssssssssssssssssssssssssssssssssss\xe9sssssssssssssssssssssssssssssssssss\r\n\r\n",
+    b"HTTP/1.1 404 tttttttttttttttttttttttttttttttttttttttttttttttttttttttttttttttttttttttt\r\nB",
     // NewLine: a lone CR among the leading empty lines / where the head must end
     b"\rHTTP/1.1 200 OK\r\n\r\n",
     b"HTTP/1.1 200 OK\r\nA: 1\r\n\rX",
